@@ -74,6 +74,10 @@ type Contract struct {
 	// return]) and the obligation is their conjunction, instead of one statement about the
 	// ite-merged results (same meaning; the terms then match the hypotheses syntactically)
 	SplitReturns bool
+	// AssertsOnly: the body is executed only for its `at <call site> assert` clauses (what is
+	// handed to the callees); its safety and its postconditions are not claimed — used for
+	// functions whose contract is otherwise assumed (`trusted`)
+	AssertsOnly bool
 	WireLen    []*Clause // wire-length <= expr: byte length of what the function writes to its Encoder
 	CallAsserts map[string][]*Clause // at <call site> assert <expr> ($arg0.. are the actual arguments)
 	HashOf     *SExpr   // digest expression of the family member (default: result)
@@ -130,7 +134,7 @@ var (
 var clauseKeywords = map[string]bool{
 	"prop": true, "mode": true, "requires": true, "ensures": true, "panics-iff": true, "may-panic": true,
 	"invariant": true, "decreases": true, "unroll": true, "modifies": true, "let": true, "trusted": true,
-	"abstract": true, "inline": true, "split": true, "assert": true, "replay": true, "no-panic": true, "ghost": true, "instance": true, "preimage": true, "hash-family": true, "concrete": true, "wire-length": true, "at": true, "pure": true, "split-returns": true,
+	"abstract": true, "inline": true, "split": true, "assert": true, "replay": true, "no-panic": true, "ghost": true, "instance": true, "preimage": true, "hash-family": true, "concrete": true, "wire-length": true, "at": true, "pure": true, "split-returns": true, "asserts-only": true,
 }
 
 // qualify turns a contract-file function key into the ssa full name.
@@ -368,9 +372,18 @@ func (cs *ContractStore) addClause(c *Contract, kw, rest, where string) error {
 		if len(parts) != 2 {
 			return fmt.Errorf("%s: at <site> assert <expr>", where)
 		}
-		e, err := ParseSpec(strings.TrimSpace(parts[1]))
+		// optional label: at <site> assert @label <expr>
+		body := strings.TrimSpace(parts[1])
+		alabel := ""
+		if lm := reLabel.FindStringSubmatch(body); lm != nil {
+			alabel, body = lm[1], lm[2]
+		}
+		e, err := ParseSpec(body)
 		if err != nil {
 			return fmt.Errorf("%s: %v", where, err)
+		}
+		if alabel != "" {
+			label = alabel
 		}
 		if c.CallAsserts == nil {
 			c.CallAsserts = map[string][]*Clause{}
@@ -381,6 +394,8 @@ func (cs *ContractStore) addClause(c *Contract, kw, rest, where string) error {
 		c.Pure = true
 	case "split-returns":
 		c.SplitReturns = true
+	case "asserts-only":
+		c.AssertsOnly = true
 	case "concrete":
 		c.Concrete = append(c.Concrete, strings.Fields(strings.ReplaceAll(rest, ",", " "))...)
 	case "hash-family":
